@@ -23,6 +23,7 @@ type Standin struct {
 	EnvThorough []string
 	Bound       string
 	Timeout     time.Duration
+	Extra       map[string]string // other repository files replaced for the test build (repo path -> file under /verif/standins)
 }
 
 var propStandins = map[string][]Standin{
@@ -43,6 +44,13 @@ var propStandins = map[string][]Standin{
 		EnvQuick: []string{"C08_ROUNDS=10"}, EnvThorough: []string{"C08_ROUNDS=120"},
 		Bound:   "independence of the import result from batching and arrival order (replay of older captures, reassembly state across captures, classification of streams as added/updated/reset; only the choice of stream ids is under contract): 10 (quick) / 120 (thorough) seeded rounds of 2-6 UDP conversations with 1-4 datagrams each (both directions, 5 payload words, gaps of 1-30 s, interleaved in time), cut chronologically into 1-4 capture files; the files are imported into separate services (a) all in one call, (b) one by one in order, (c) one by one in a shuffled order, (d) one by one with a restart of the service after every capture; (b)-(d) must end up showing exactly what (a) shows (per stream: client and server endpoint, payload per direction in order), (a) must show one stream per conversation, and within a service after every capture every stream id seen before still names the same pair of endpoints and no pair of endpoints is visible under two ids. Not generated: TCP (reassembly, retransmissions, reordering), IPv6, inactivity time-outs, snapshots (they need 100000 packets), captures larger than one batch",
 		Timeout: 10 * time.Minute,
+	}},
+	"C19": {{
+		Name: "file-endpoints", Pkg: "cmd/pkappa2", TestFile: "upload_standin_test.go", TestName: "TestC19Standin", OutEnv: "C19_OUT",
+		Extra:    map[string]string{"web/web.go": "web_stub.go.txt"},
+		EnvQuick: []string{"C19_REQUESTS=400"}, EnvThorough: []string{"C19_REQUESTS=6000"},
+		Bound:   "the two file endpoints through the real router (chi routing and URL decoding, net/http path cleaning, filepath, the file system; only the handlers' own calls are under contract): an httptest server around setupRouter with a real Manager on temporary directories; 400 (quick) / 6000 (thorough) seeded requests out of POST /upload/<p> and GET /api/download/pcap/<p> where <p> is one of 19 prefixes (none, ../, ..%2f, %2e%2e/, %2e%2e%2f, ../state/, ./, //, /, %2f, sub/, ..%5c, ....//, %00, ..;/, pcap/../../, doubly encoded, ...) followed by one of 11 names (plain, existing, a name that also exists outside the capture directory, spaces, non-ASCII, dot names, wrong suffixes, upper case), and pairs of simultaneous uploads of one new name; after every request the whole temporary tree (except what the service's own jobs write) is compared with the tree before: no file outside the capture directory appears, changes or disappears, an accepted upload creates exactly one file directly inside the capture directory holding exactly the body, an upload of an existing name changes nothing, a download returns only the content of a file in the capture directory and never the secret stored outside, of two simultaneous uploads exactly one succeeds and its body is what is stored. web/web.go is replaced by a stub for this test build (it embeds the built frontend, which does not exist in the sandbox). Not generated: authentication, very long names, symbolic links inside the capture directory",
+		Timeout: 5 * time.Minute,
 	}},
 	"C12": {{
 		Name: "kill-restart", Pkg: "internal/index/manager", TestFile: "crash_standin_test.go", TestName: "TestC12Standin", OutEnv: "C12_OUT",
@@ -147,9 +155,14 @@ func runStandin(sd Standin, tier string) standinResult {
 		return res
 	}
 	defer os.RemoveAll(tmp)
-	ov := map[string]any{"Replace": map[string]string{
+	repl := map[string]string{
 		filepath.Join(repoRoot, sd.Pkg, "zz_gvc_standin_test.go"): filepath.Join(verifRoot, "standins", sd.TestFile),
-	}}
+	}
+	// further files the test build needs replaced (path inside the repository -> file under /verif/standins)
+	for in, by := range sd.Extra {
+		repl[filepath.Join(repoRoot, in)] = filepath.Join(verifRoot, "standins", by)
+	}
+	ov := map[string]any{"Replace": repl}
 	ovData, _ := json.Marshal(ov)
 	ovPath := filepath.Join(tmp, "overlay.json")
 	os.WriteFile(ovPath, ovData, 0o644)
